@@ -4,7 +4,9 @@ import "verif/harness/internal/core"
 
 // Registry maps property ids to their checks.
 var Registry = map[string]func(*core.Run){
+	"C02": C02,
 	"C03": C03,
+	"C06": C06,
 	"C04": C04,
 	"C05": C05,
 }
